@@ -216,8 +216,9 @@ impl<'v> CheapCallStack<'v> {
 
     pub(crate) fn to_diagnostic_frames(&self, inlined_frames: InlinedFrames) -> CallStack {
         // The first entry is just the entire module, so skip it
+        // (outside of an evaluation the stack is empty: there is nothing to skip).
         let mut frames = Vec::new();
-        for frame in &self.stack[1..self.count] {
+        for frame in &self.stack[1.min(self.count)..self.count] {
             frame.extend_frames(&mut frames);
         }
         inlined_frames.extend_frames(&mut frames);
@@ -226,6 +227,6 @@ impl<'v> CheapCallStack<'v> {
 
     /// List the entries on the stack as values
     pub(crate) fn to_function_values(&self) -> Vec<Value<'v>> {
-        self.stack[1..self.count].map(|x| x.function)
+        self.stack[1.min(self.count)..self.count].map(|x| x.function)
     }
 }
